@@ -62,7 +62,7 @@ Theorem c15_offsets : forall p w idx f, frame_ok f ->
     jget k_function_offset j =
       Some (match fr_function_base f with Some base => JStr (address_str w (fr_instr f - base)) | None => JNull end) /\
     jget k_missing_symbols j = Some (JBool (match fr_function f with Some _ => false | None => true end)) /\
-    jget k_trust j = Some (JStr (fr_trust f)).
+    jget k_trust j = Some (JStr (trust_name (fr_trust f))).
 Proof. exact frame_json. Qed.
 Print Assumptions c15_offsets.
 
@@ -133,6 +133,33 @@ Theorem c15_hex_width : forall w x, 0 <= x < two64 ->
 Proof. exact address_width. Qed.
 Print Assumptions c15_hex_width.
 
+(* Every enumeration-valued string the report can carry is one of the values json-schema.md lists for that
+   member.  FINITE CHECK (vm_compute over the name tables that translate/c15_enums.py regenerates from the source and
+   from json-schema.md on every run), not an induction: trust (every FrameTrust variant except the unreachable
+   `None`, whose as_str() is the typo "non"), access_type (Read / Write / ReadWrite; Underivable emits no member),
+   crash_inconsistencies, cpu_arch (all ten), os (the eight named systems; Unknown(id) is finding F-C15a). *)
+Theorem c15_enumerations :
+  (forall n, In n (skipn 1 TRUST_NAMES) -> In n DOC_TRUST) /\
+  (forall n, In n (firstn 3 ACCESS_NAMES) -> In n DOC_ACCESS_TYPE) /\
+  (forall n, In n INCONSISTENCY_NAMES -> In n DOC_INCONSISTENCIES) /\
+  (forall n, In n CPU_NAMES -> In n DOC_CPU_ARCH) /\
+  (forall n, In n OS_NAMES -> In n DOC_OS) /\
+  (length TRUST_NAMES = 7 /\ length ACCESS_NAMES = 4 /\ length INCONSISTENCY_NAMES = 5 /\
+   length CPU_NAMES = 10 /\ length OS_NAMES = 8)%nat.
+Proof.
+  repeat split; try (apply subset_In; vm_compute; reflexivity); reflexivity.
+Qed.
+Print Assumptions c15_enumerations.
+
+(* the two strings that are NOT in the documented sets: F-C15a (known) and the unreachable trust typo *)
+Theorem c15_os_unknown_known_witness :
+  os_name 8 32768 = [48; 120; 48; 120; 48; 48; 56; 48; 48; 48] /\ ~ In (os_name 8 32768) DOC_OS /\
+  ~ In (trust_name 0) DOC_TRUST.
+Proof.
+  split; [vm_compute; reflexivity|]. split; intro H; vm_compute in H; repeat (destruct H as [H|H]; [discriminate H|]); exact H.
+Qed.
+Print Assumptions c15_os_unknown_known_witness.
+
 (* ---- non-vacuity ---- *)
 Example c15_nonvacuous_roundtrip :
   let v := JObj [([97; 34; 92; 10; 1; 128512], JArr [JNum (-42); JNum 0; JNull; JBool true; JStr [31; 127; 8]; JObj []; JArr []])] in
@@ -146,13 +173,18 @@ Definition ex_state : state :=
      s_threads := [ {| th_id := 1; th_name := Some [110; 34]; th_frames :=
                         [ {| fr_instr := 4198400; fr_module := Some ([109], 4194304); fr_function := Some [102];
                              fr_function_base := Some 4198144; fr_file := None; fr_line := Some 3;
-                             fr_trust := [99]; fr_unloaded := [] |};
+                             fr_trust := 4; fr_unloaded := [] |};
                           {| fr_instr := 16; fr_module := None; fr_function := None; fr_function_base := None;
-                             fr_file := None; fr_line := None; fr_trust := [115]; fr_unloaded := [([117], [16; 32])] |} ] |};
+                             fr_file := None; fr_line := None; fr_trust := 1; fr_unloaded := [([117], [16; 32])] |} ] |};
                     {| th_id := 2; th_name := None; th_frames := [] |} ];
      s_requesting := Some 0%nat; s_registers := [([101; 105; 112], 4198400, 8%nat)];
      s_modules := [ {| m_base := 4194304; m_size := 65536; m_name := [109] |} ]; s_unloaded := [];
-     s_crash := Some ([83], 16) |}.
+     s_crash := Some {| cr_reason := [83]; cr_addr := 16; cr_adjusted := Some (AdjNull 16); cr_instr := Some [97; 100; 100];
+                        cr_accesses := Some [ {| a_addr := 16; a_size := Some 4; a_guard := true; a_type := 2 |} ];
+                        cr_ipu := Some IpuNone; cr_flips := []; cr_incons := [4] |};
+     s_sys := {| sy_os := 8; sy_os_raw := 32768; sy_os_ver := None; sy_cpu := 0; sy_cpu_info := None; sy_cpu_count := 1;
+                 sy_microcode := Some 26 |};
+     s_lsb := None; s_mapcount := None; s_cert := false |}.
 Example c15_nonvacuous_state : state_ok ex_state /\
   exists j, json_of_state Debug ex_state = Ret j /\ parse (serialise j) = Some j /\
             jget k_thread_count j = Some (JNum 2) /\ (140 < length (serialise j))%nat.
